@@ -31,7 +31,8 @@ THEOREMS = [
 RULE = ("seeded generator over classes {non-negative / non-positive / sign-crossing / flat / nearly-flat / "
         "axis-touching breakpoint lists given as int, float and numpy scalars; exact landscapes of diagrams, "
         "their sums, differences and linear combinations through + - * /; grid landscapes from values and from "
-        "diagrams and their combinations; scales 2^-20..2^20; several depths; single-breakpoint depths} x "
+        "diagrams and their combinations; landscapes built from diagrams with compute=False whose first use is p_norm / sup_norm "
+        "(compared with the eagerly built twin and the spec); scales 2^-20..2^20; several depths; single-breakpoint depths} x "
         "p in {1,2,3,4,5,7,10} and real p in {1.5, 2.5, pi}; a case is non-trivial when the call succeeds and "
         "the reported landscape has a sloped segment with non-zero integral; distinct = distinct JSON input")
 TRUSTED_BASE = [
@@ -232,6 +233,14 @@ def _case(rng, cls):
             terms = [[_coef(rng), _approx_leaf(rng, grid)] for _ in range(rng.randint(2, 3))]
         c["recipe"] = {"t": "lin", "terms": terms}
         c["other"] = _approx_leaf(rng, grid)
+    elif cls in ("lazy_exact_pnorm", "lazy_exact_sup"):
+        c["recipe"] = {"t": "dgm", "bars": _bars(rng, rng.choice(["dyadic", "decimal"]))}
+        c["lazy"] = "p_norm" if cls == "lazy_exact_pnorm" else "sup_norm"
+    elif cls in ("lazy_approx_pnorm", "lazy_approx_sup"):
+        start, stop, n = 0.0, float(rng.randint(4, 9)), rng.choice([5, 9, 17])
+        bars = [[b, min(d, stop)] for b, d in _bars(rng, "decimal") if b + 0.5 < stop] or [[0.5, 3.0]]
+        c["recipe"] = {"t": "adgm", "bars": bars, "start": start, "stop": stop, "n": n}
+        c["lazy"] = "p_norm" if cls == "lazy_approx_pnorm" else "sup_norm"
     elif cls == "real_p":
         c["p"] = rng.choice(REAL_PS)
         k = rng.choice(["cross", "mixed", "neg", "nearly_flat", "diff"])
@@ -250,7 +259,8 @@ def _case(rng, cls):
 
 CLASSES = (["pos", "neg", "flat", "touch", "mixed", "single_point", "scaled", "dgm"] * 2
            + ["cross", "nearly_flat", "sum", "diff", "lincomb"] * 4
-           + ["approx_vals", "approx_dgm", "approx_diff", "approx_lin"] * 2)
+           + ["approx_vals", "approx_dgm", "approx_diff", "approx_lin"] * 2
+           + ["lazy_exact_pnorm", "lazy_exact_sup", "lazy_approx_pnorm", "lazy_approx_sup"] * 2)
 
 
 def generate(rng, tier):
@@ -262,7 +272,8 @@ def generate(rng, tier):
 
 
 def search_generate(rng, n):
-    return [_case(rng, rng.choice(["cross", "nearly_flat", "sum", "diff", "lincomb", "mixed", "approx_diff", "flat", "touch"]))
+    return [_case(rng, rng.choice(["cross", "nearly_flat", "sum", "diff", "lincomb", "mixed", "approx_diff", "flat", "touch",
+                                  "lazy_exact_pnorm", "lazy_exact_sup", "lazy_approx_pnorm", "lazy_approx_sup"]))
             for _ in range(n)]
 
 
@@ -289,7 +300,8 @@ def _num(v):
     return v
 
 
-def _build(r):
+def _build(r, lazy=False):
+    """lazy=True: diagrams are passed with compute=False, so the first method that needs the landscape computes it"""
     import numpy as np
     from persim.landscapes import PersLandscapeApprox, PersLandscapeExact
     t = r["t"]
@@ -297,13 +309,13 @@ def _build(r):
         conv = {"int": (lambda v: int(v) if float(v) == int(v) else float(v)), "float": float, "np": np.float64}[r["rep"]]
         return PersLandscapeExact(critical_pairs=[[[conv(x), conv(y)] for x, y in d] for d in r["cp"]], hom_deg=0)
     if t == "dgm":
-        return PersLandscapeExact(dgms=[np.array(r["bars"], dtype=float)], hom_deg=0)
+        return PersLandscapeExact(dgms=[np.array(r["bars"], dtype=float)], hom_deg=0, compute=not lazy)
     if t == "vals":
         return PersLandscapeApprox(start=r["start"], stop=r["stop"], num_steps=r["n"],
                                    values=np.array(r["values"], dtype=float), hom_deg=0)
     if t == "adgm":
         return PersLandscapeApprox(start=r["start"], stop=r["stop"], num_steps=r["n"],
-                                   dgms=[np.array(r["bars"], dtype=float)], hom_deg=0)
+                                   dgms=[np.array(r["bars"], dtype=float)], hom_deg=0, compute=not lazy)
     if t == "lin":
         acc = None
         for c, sub in r["terms"]:
@@ -331,11 +343,26 @@ def impl_run(cases):
     outs = []
     for c in cases:
         def call():
-            L = _build(c["recipe"])
-            o = _describe(L)
             p = c["p"]
-            o["norm"] = core.guarded(lambda: _num(L.p_norm(p)))
-            o["sup"] = core.guarded(lambda: _num(L.sup_norm()))
+            if c.get("lazy"):
+                # the landscape is described from an eagerly built twin; on the lazy object the method
+                # named by c["lazy"] is the FIRST one that needs the landscape
+                E = _build(c["recipe"])
+                o = _describe(E)
+                o["eager_norm"] = core.guarded(lambda: _num(E.p_norm(p)))
+                o["eager_sup"] = core.guarded(lambda: _num(E.sup_norm()))
+                L = _build(c["recipe"], lazy=True)
+                if c["lazy"] == "p_norm":
+                    o["norm"] = core.guarded(lambda: _num(L.p_norm(p)))
+                    o["sup"] = core.guarded(lambda: _num(L.sup_norm()))
+                else:
+                    o["sup"] = core.guarded(lambda: _num(L.sup_norm()))
+                    o["norm"] = core.guarded(lambda: _num(L.p_norm(p)))
+            else:
+                L = _build(c["recipe"])
+                o = _describe(L)
+                o["norm"] = core.guarded(lambda: _num(L.p_norm(p)))
+                o["sup"] = core.guarded(lambda: _num(L.sup_norm()))
             o["homog"] = core.guarded(lambda: _num((c["c"] * L).p_norm(p)))
             o["zero"] = core.guarded(lambda: _num((L - L).p_norm(p)))
             if c.get("other"):
@@ -440,6 +467,10 @@ def predicate(c, o):
         want = max(abs(y) for y in pts)
         if not _fl(s) or Fraction(s) != want:
             return False, "sup: sup_norm() = %r but the largest |value| is %r" % (s, float(want))
+    if c.get("lazy"):
+        if o.get("eager_norm") != v or o.get("eager_sup") != o["sup"]:
+            return False, "lazy: compute=False landscape, %s first: p_norm %r / sup_norm %r but the eagerly built one gives %r / %r" % (
+                c["lazy"], v, o["sup"], o.get("eager_norm"), o.get("eager_sup"))
     h = o.get("homog")
     if not _fl(h) or abs(h - abs(c["c"]) * v) > 4e-9 * abs(c["c"]) * v + 1e-300:
         return False, "homogeneity: ||%r P||_p = %r but |c| ||P||_p = %r" % (c["c"], h, abs(c["c"]) * v)
